@@ -56,7 +56,7 @@ fn stats(case: &crate::case::Case, nontrivial: bool, skipped: bool) {
     if skipped {
         s.2 += 1;
     }
-    if s.0 % 500 == 0 || s.0 == 1 {
+    if s.0 % 100 == 0 || s.0 == 1 {
         let body = serde_json::json!({"executions": s.0, "nontrivial": s.1, "skipped": s.2, "samples": s.3});
         let _ = std::fs::write(&path, body.to_string());
     }
